@@ -200,14 +200,15 @@ func histChild(args []string) {
 // ---------------------------------------------------------------- Inverse on the C15 shapes
 
 type rtEvent struct {
-	Ev     string `json:"ev"`
-	API    string `json:"api"`
-	Ok     bool   `json:"ok"`
-	M      string `json:"m"`
-	Res    tvNode `json:"res"`
-	Orig   tvNode `json:"orig"`
-	Alias  bool   `json:"alias"`  // two positions of the result share a pointer target, map or slice backing array
-	OAlias bool   `json:"oalias"` // ... of the original
+	Ev       string `json:"ev"`
+	API      string `json:"api"`
+	Ok       bool   `json:"ok"`
+	M        string `json:"m"`
+	Res      tvNode `json:"res"`
+	Orig     tvNode `json:"orig"`
+	TagKeyed bool   `json:"tagkeyed"` // the data was written with UseTags (keys are the json tag names)
+	Alias    bool   `json:"alias"`    // two positions of the result share a pointer target, map or slice backing array
+	OAlias   bool   `json:"oalias"`   // ... of the original
 }
 
 // registered: the types an interface-typed field may hold must be known to the recomposer (that is what the create key is for)
@@ -328,7 +329,7 @@ var rtAPIs = []rtAPI{
 }
 
 func rtOne(api rtAPI, rv reflect.Value) (ev rtEvent) {
-	ev = rtEvent{Ev: "rt", API: api.name, Orig: project(rv), Res: tvNode{"g": "other"}, OAlias: aliased(rv)}
+	ev = rtEvent{Ev: "rt", API: api.name, Orig: project(rv), Res: tvNode{"g": "other"}, OAlias: aliased(rv), TagKeyed: api.mode == "tags"}
 	defer func() {
 		if r := recover(); r != nil {
 			ev.Ok, ev.M = false, trunc(fmt.Sprintf("panic: %v", r))
